@@ -3,7 +3,14 @@ import TabulaModel.Model.A1
 /-
 Model of core/object.go (the value types) and core/parser.go (tabula, after
 the C06 fixes): `NewParser`, `(*Parser).nextToken`, `ParseObject`,
-`parseNumber`, `parseArray`, `parseDict`.  Core Lean only.
+`parseNumber`, `parseArray`, `parseDict`, `enter` / `maxNestingDepth`.
+Core Lean only.
+
+Nesting limit (fix a3fd154): `p.depth` counts the arrays and dictionaries
+currently open; `enter()` refuses to open one more when `p.depth >= 500`, and
+the deferred `p.depth--` undoes the count on every way out.  Here the count is
+the argument `d` of the three mutually recursive functions (a value, so leaving
+a container restores it by itself); a top-level `ParseObject` starts at 0.
 
 `strconv.ParseInt(s, 10, 64)` is `Tabula.A1.atoi` (sign, digits, int64 range).
 `strconv.ParseFloat` is only ever applied to texts the lexers produce (optional
@@ -29,6 +36,25 @@ inductive Obj
   | dict (kv : List (Str × Obj))
   | ref (num gen : Int)
   deriving Repr
+
+mutual
+/-- nesting depth of an object: 0 for the seven scalar kinds and references, one more than the
+deepest element for an array or a dictionary (the number of containers open while the innermost
+element is read) -/
+def Obj.depth : Obj → Nat
+  | .arr xs => 1 + Obj.depthList xs
+  | .dict kv => 1 + Obj.depthKV kv
+  | _ => 0
+def Obj.depthList : List Obj → Nat
+  | [] => 0
+  | x :: xs => max x.depth (Obj.depthList xs)
+def Obj.depthKV : List (Str × Obj) → Nat
+  | [] => 0
+  | (_, v) :: r => max v.depth (Obj.depthKV r)
+end
+
+/-- `maxNestingDepth` of core/parser.go (and, the same constant, of contentstream/parser.go) -/
+def maxNestingDepth : Nat := 500
 
 /-- `dict[key] = value` -/
 def dictSet : List (Str × Obj) → Str → Obj → List (Str × Obj)
@@ -124,10 +150,13 @@ def parseNumber (s : PState) (v : Str) : Except PErr (Obj × PState) :=
 
 mutual
 /-- `(*Parser).ParseObject` (`skipComments` never finds a comment: `nextToken`
-drops them) -/
-def parseObject : Nat → PState → Except PErr (Obj × PState)
-  | 0, _ => .error .err
-  | f + 1, s =>
+drops them).  First argument: fuel; second: `p.depth`, the number of arrays and
+dictionaries open around the object.  The `enter()` check of `parseArray` /
+`parseDict` (made on the opening token, before it is consumed) is the `if` in
+the two container arms. -/
+def parseObject : Nat → Nat → PState → Except PErr (Obj × PState)
+  | 0, _, _ => .error .err
+  | f + 1, d, s =>
     match s.cur with
     | none => .error .err
     | some .eof => if s.err then .error .err else .error .eof
@@ -144,33 +173,35 @@ def parseObject : Nat → PState → Except PErr (Obj × PState)
     | some (.str v) => .ok (.str v, s.next)
     | some (.hexstr v) => .ok (.str (hexPairs v), s.next)
     | some (.name v) => .ok (.name v, s.next)
-    | some .arrStart => parseArray f s.next []
-    | some .dictStart => parseDict f s.next []
+    | some .arrStart =>
+      if maxNestingDepth ≤ d then .error .err else parseArray f (d + 1) s.next []
+    | some .dictStart =>
+      if maxNestingDepth ≤ d then .error .err else parseDict f (d + 1) s.next []
     | some _ => .error .err
-/-- the loop of `(*Parser).parseArray` -/
-def parseArray : Nat → PState → List Obj → Except PErr (Obj × PState)
-  | 0, _, _ => .error .err
-  | f + 1, s, acc =>
+/-- the loop of `(*Parser).parseArray`; `d` counts this array too -/
+def parseArray : Nat → Nat → PState → List Obj → Except PErr (Obj × PState)
+  | 0, _, _, _ => .error .err
+  | f + 1, d, s, acc =>
     match s.cur with
     | none => .error .err
     | some .arrEnd => .ok (.arr acc, s.next)
     | some .eof => .error .err
     | some _ =>
-      match parseObject f s with
+      match parseObject f d s with
       | .error _ => .error .err
-      | .ok (o, s') => parseArray f s' (acc ++ [o])
-/-- the loop of `(*Parser).parseDict` -/
-def parseDict : Nat → PState → List (Str × Obj) → Except PErr (Obj × PState)
-  | 0, _, _ => .error .err
-  | f + 1, s, acc =>
+      | .ok (o, s') => parseArray f d s' (acc ++ [o])
+/-- the loop of `(*Parser).parseDict`; `d` counts this dictionary too -/
+def parseDict : Nat → Nat → PState → List (Str × Obj) → Except PErr (Obj × PState)
+  | 0, _, _, _ => .error .err
+  | f + 1, d, s, acc =>
     match s.cur with
     | none => .error .err
     | some .dictEnd => .ok (.dict acc, s.next)
     | some .eof => .error .err
     | some (.name k) =>
-      match parseObject f s.next with
+      match parseObject f d s.next with
       | .error _ => .error .err
-      | .ok (o, s') => parseDict f s' (dictSet acc k o)
+      | .ok (o, s') => parseDict f d s' (dictSet acc k o)
     | some _ => .error .err
 end
 
@@ -179,15 +210,16 @@ def fuelFor (inp : Str) : Nat := 4 * inp.length + 8
 
 /-- `core.NewParser(r).ParseObject()` -/
 def coreParse (inp : Str) : Except PErr (Obj × PState) :=
-  parseObject (fuelFor inp) (newParser inp)
+  parseObject (fuelFor inp) 0 (newParser inp)
 
 /-- `ParseObject()` called again and again until it fails (what the harness
-observes): the objects, then `eof` or `err` -/
+observes): the objects, then `eof` or `err`.  Every call starts with
+`p.depth = 0`: the deferred decrements have undone every `enter()`. -/
 def coreParseAll (inp : Str) : List Obj × PErr :=
   let rec go : Nat → PState → List Obj → List Obj × Option PErr
     | 0, _, acc => (acc, none)
     | n + 1, s, acc =>
-      match parseObject (fuelFor inp) s with
+      match parseObject (fuelFor inp) 0 s with
       | .error e => (acc, some e)
       | .ok (o, s') => go n s' (acc ++ [o])
   match go (inp.length + 2) (newParser inp) [] with
